@@ -151,6 +151,7 @@ type Case struct {
 	MaxSteps int64            `json:"max_steps,omitempty"`
 	Life     string           `json:"life,omitempty"`
 	Damage   *Damage          `json:"damage,omitempty"`
+	Slow     []int            `json:"slow,omitempty"` // clients scheduled only rarely (slow nodes)
 }
 
 // Clone deep-copies a case through JSON.
